@@ -1,4 +1,178 @@
-import Physt.Theorems.C01
+import Physt.Proofs.Lists
+import Mathlib.Tactic.Ring
+/-!
+# C10 — merge_bins conserves content and bin boundaries
+-/
 namespace Physt
-theorem C10_placeholder : True := trivial
+open H1
+
+theorem sum_zipAdd (a b : List Rat) (h : a.length = b.length) : (zipAdd a b).sum = a.sum + b.sum := by
+  induction a generalizing b with
+  | nil => cases b <;> simp_all [zipAdd]
+  | cons x xs ih =>
+    cases b with
+    | nil => simp at h
+    | cons y ys =>
+      have := ih ys (by simpa using h)
+      simp only [zipAdd, List.zipWith_cons_cons, List.sum_cons] at this ⊢
+      rw [this]; ring
+
+theorem sum_indicator (n i : Nat) (w : Rat) (hi : i < n) : (indicator n i w).sum = w := by
+  induction n generalizing i with
+  | zero => omega
+  | succ n ih =>
+    unfold indicator
+    rw [List.range_succ, List.map_append, List.sum_append]
+    by_cases h : i = n
+    · subst h
+      have : ((List.range i).map fun j => if j = i then w else 0) = (List.range i).map fun _ => (0 : Rat) := by
+        apply List.map_congr_left
+        intro j hj
+        have : j ≠ i := by have := List.mem_range.mp hj; omega
+        simp [this]
+      rw [this]
+      simp
+    · have := ih i (by omega)
+      unfold indicator at this
+      rw [this]
+      have hn : ¬ n = i := fun e => h e.symm
+      simp [hn]
+
+/-- the per-run sums of `vals` grouped by `map`, as a function of the zipped list -/
+def groupSums (zs : List (Rat × Nat)) (n : Nat) : List Rat :=
+  (List.range n).map fun j => ((zs.filter (·.2 == j)).map (·.1)).sum
+
+theorem groupSums_cons (z : Rat × Nat) (zs : List (Rat × Nat)) (n : Nat) :
+    groupSums (z :: zs) n = zipAdd (indicator n z.2 z.1) (groupSums zs n) := by
+  apply List.ext_getElem?
+  intro j
+  simp only [groupSums, zipAdd_getElem?, indicator, List.getElem?_map]
+  by_cases hj : j < n
+  · simp only [List.getElem?_range hj, Option.map_some, Option.bind_some, List.filter_cons]
+    by_cases hz : z.2 = j
+    · subst hz; simp
+    · have h2 : ¬ j = z.2 := fun e => hz e.symm
+      have h3 : (z.2 == j) = false := by simpa using hz
+      simp [h2, h3]
+  · simp [List.getElem?_eq_none (show (List.range n).length ≤ j by simp; omega)]
+
+theorem groupSums_sum (zs : List (Rat × Nat)) (n : Nat) (h : ∀ z ∈ zs, z.2 < n) :
+    (groupSums zs n).sum = (zs.map (·.1)).sum := by
+  induction zs with
+  | nil => simp [groupSums]
+  | cons z zs ih =>
+    rw [groupSums_cons, sum_zipAdd _ _ (by simp [indicator, groupSums]),
+      sum_indicator n z.2 z.1 (h z (List.mem_cons_self ..)), ih (fun q hq => h q (List.mem_cons_of_mem _ hq))]
+    simp
+
+/-- **Conservation.** Whatever the bin map (runs of `amount` bins, or the `min_frequency`
+    grouping), as long as it sends every old bin to one of the new bins, the merged contents (and
+    squared errors) have the same total: nothing is lost and nothing is counted twice. -/
+theorem C10_conserve (vals : List Rat) (map : List Nat) (newN : Nat) (hl : map.length = vals.length)
+    (hm : ∀ j ∈ map, j < newN) : (mergeVals vals map newN).sum = vals.sum := by
+  have : mergeVals vals map newN = groupSums (vals.zip map) newN := rfl
+  rw [this, groupSums_sum]
+  · rw [List.map_fst_zip (by omega)]
+  · intro z hz
+    exact hm z.2 (List.of_mem_zip hz).2
+
+/-- the map of `merge_bins(amount)`: old bin `k` goes to new bin `k / amount`, i.e. new bin `j`
+    collects exactly the run `j*amount ≤ k < (j+1)*amount` (the last run may be shorter) -/
+theorem C10_runs (n amount k j : Nat) (ha : 0 < amount) :
+    (amountMap n amount)[k]? = some j ↔ k < n ∧ j * amount ≤ k ∧ k < (j + 1) * amount := by
+  unfold amountMap
+  simp only [List.getElem?_map]
+  by_cases hk : k < n
+  · simp only [List.getElem?_range hk, Option.map_some, Option.some.injEq, hk, true_and]
+    rw [Nat.div_eq_iff ha]
+    have e : (j + 1) * amount = j * amount + amount := by ring
+    constructor <;> intro h <;> constructor <;> omega
+  · simp [List.getElem?_eq_none (show (List.range n).length ≤ k by simp; omega), hk]
+
+/-- the merged content of new bin `j` is the sum of the contents of its run -/
+theorem C10_run_content (vals : List Rat) (map : List Nat) (newN j : Nat) (hj : j < newN) :
+    (mergeVals vals map newN)[j]? = some (((vals.zip map).filter (·.2 == j)).map (·.1)).sum := by
+  simp [mergeVals, List.getElem?_map, List.getElem?_range hj]
+
+/-- missed counts, the other fields and (for a copying merge) the original are untouched -/
+theorem C10_untouched (fo : FloatOps) (h r : H1) (map : List Nat) (hr : h.mergeWithMap fo map = .ok r) :
+    r.under = h.under ∧ r.over = h.over ∧ r.inner = h.inner ∧ r.dtype = h.dtype ∧ r.keep = h.keep := by
+  unfold mergeWithMap at hr
+  simp only [bind, Except.bind, pure, Except.pure] at hr
+  cases hb : mergeBinsAux ((h.bins fo).zip map) none with
+  | error e => simp [hb] at hr
+  | ok nb => simp only [hb] at hr; cases hr; exact ⟨rfl, rfl, rfl, rfl, rfl⟩
+
+/-- a bin map that climbs in steps of 0 or 1 from `start` (or `start + 1`): consecutive old bins
+    go to the same or to the next new bin, so every new bin is a union of adjacent old bins -/
+def StepChain : Nat → List Nat → Prop
+  | _, [] => True
+  | s, x :: xs => (x = s ∨ x = s + 1) ∧ StepChain x xs
+
+theorem minFreqMapAux_chain (thr : Rat) (fs : List Rat) (cur : Nat) (sum : Rat) :
+    StepChain cur (minFreqMapAux thr fs cur sum) ∧
+    (sum = 0 → ∀ x, (minFreqMapAux thr fs cur sum).head? = some x → x = cur) := by
+  induction fs generalizing cur sum with
+  | nil => simp [minFreqMapAux, StepChain]
+  | cons f fs ih =>
+    simp only [minFreqMapAux]
+    by_cases h1 : thr ≤ f ∧ 0 < sum
+    · simp only [h1, and_self, if_true]
+      constructor
+      · refine ⟨Or.inr rfl, ?_⟩
+        split
+        · have := (ih (cur + 1 + 1) 0).1
+          -- the next entry is `cur+1+1` or stays: it is a chain from `cur+1` because a fresh group
+          -- (sum = 0) starts exactly at its own index
+          cases hm : minFreqMapAux thr fs (cur + 1 + 1) 0 with
+          | nil => trivial
+          | cons y ys =>
+            have hy := (ih (cur + 1 + 1) 0).2 rfl y (by simp [hm])
+            rw [hm] at this
+            exact ⟨Or.inr hy, this.2⟩
+        · exact (ih (cur + 1) _).1
+      · intro hs; exfalso; rw [hs] at h1; exact lt_irrefl _ h1.2
+    · simp only [h1, if_false]
+      constructor
+      · refine ⟨Or.inl rfl, ?_⟩
+        split
+        · cases hm : minFreqMapAux thr fs (cur + 1) 0 with
+          | nil => trivial
+          | cons y ys =>
+            have hy := (ih (cur + 1) 0).2 rfl y (by simp [hm])
+            have := (ih (cur + 1) 0).1
+            rw [hm] at this
+            exact ⟨Or.inr hy, this.2⟩
+        · exact (ih cur _).1
+      · intro _ x hx; simpa using hx.symm
+
+/-- **min_frequency.** The grouping starts at new bin 0 and climbs in steps of 0 or 1: every new
+    bin is a union of adjacent old bins, in order, and no old bin is left out. -/
+theorem C10_minfreq (thr : Rat) (freq : List Rat) :
+    StepChain 0 (minFreqMap thr freq) ∧ (minFreqMap thr freq).length = freq.length ∧
+    ∀ x, (minFreqMap thr freq).head? = some x → x = 0 := by
+  refine ⟨(minFreqMapAux_chain thr freq 0 0).1, ?_, (minFreqMapAux_chain thr freq 0 0).2 rfl⟩
+  unfold minFreqMap
+  generalize (0 : Nat) = c
+  generalize (0 : Rat) = s
+  induction freq generalizing c s with
+  | nil => rfl
+  | cons f fs ih => simp only [minFreqMapAux, List.length_cons]; split <;> split <;> simp [ih]
+
+/-- **Merging across a gap is refused**: two adjacent bins of one run whose edges do not meet. -/
+theorem C10_refuse_gap (b c : Bin) (rest : List (Bin × Nat)) (j : Nat) (hgap : b.2 ≠ c.1) :
+    ∃ e, mergeBinsAux ((c, j) :: rest) (some (b, j)) = .error e := by
+  simp [mergeBinsAux, hgap, throw, throwThe, MonadExceptOf.throw]
+
+/-- a non-positive (here: zero) amount is refused -/
+theorem C10_refuse_amount (fo : FloatOps) (h : H1) : ∃ e, h.mergeAmount fo 0 = .error e := by
+  simp [mergeAmount, throw, throwThe, MonadExceptOf.throw, bind, Except.bind]
+
+/-! Non-vacuity -/
+example : amountMap 5 2 = [0, 0, 1, 1, 2] ∧ mergeVals [1, 2, 3, 4, 5] (amountMap 5 2) 3 = [3, 7, 5] := by
+  decide +kernel
+example : minFreqMap 4 [2, 1, 5, 1, 6, 0, 0] = [0, 0, 1, 2, 3, 4, 4] := by decide +kernel
+example : (mergeBinsAux ([(0, 1), (1, 2), (3, 4)].zip [0, 0, 1]) none).toOption = some [(0, 2), (3, 4)] := by
+  decide +kernel
+
 end Physt
